@@ -2,6 +2,7 @@
 #include "tracing.h"
 #include "resource_tracking.h"
 #include "colors.h"
+#include "builtins_registry.h"
 
 static void emit_context_error(
     const char *title,
@@ -595,6 +596,102 @@ static Type infer_array_element_type(ASTNode *array_expr, Environment *env) {
 }
 
 /* Internal implementation - do not call directly */
+/* May a value of type `got` be passed where the builtin registry records `want`?
+ * (TYPE_UNKNOWN in the registry means any type; an argument whose type could not be
+ * determined is not judged) */
+static bool builtin_arg_kind_ok(const char *name, Type want, Type got) {
+    if (want == TYPE_UNKNOWN || got == TYPE_UNKNOWN || got == TYPE_GENERIC) return true;
+    switch (want) {
+        case TYPE_INT:
+            if (got == TYPE_FLOAT) {
+                /* abs, min and max also take floats */
+                return strcmp(name, "abs") == 0 || strcmp(name, "min") == 0 || strcmp(name, "max") == 0;
+            }
+            return got == TYPE_INT || got == TYPE_U8 || got == TYPE_ENUM;
+        case TYPE_FLOAT:
+            return got == TYPE_FLOAT || got == TYPE_INT || got == TYPE_U8;
+        case TYPE_STRING:
+            return got == TYPE_STRING || got == TYPE_BSTRING;
+        case TYPE_BOOL:
+            return got == TYPE_BOOL;
+        case TYPE_ARRAY:
+            return got == TYPE_ARRAY;
+        default:
+            return true;
+    }
+}
+
+/* Check the arguments of a call of a builtin: each one is a valid expression of the
+ * kind the builtin registry records for it, and (check_arity) their number is right.
+ * The value given to array_set / array_push agrees with a known scalar element type. */
+static void check_builtin_arguments(ASTNode *call, Environment *env, bool check_arity) {
+    const char *name = call->as.call.name;
+    int argc = call->as.call.arg_count;
+    const BuiltinEntry *entry = builtin_find(name);
+    char message[256];
+
+    if (entry && argc != entry->arity) {
+        if (check_arity) {
+            snprintf(message, sizeof(message), "Function `%s` expects %d argument(s), but got %d.",
+                    name, entry->arity, argc);
+            emit_context_error("ARITY MISMATCH", call->line, call->column, (int)safe_strlen(name), message,
+                               "Add or remove arguments to match the function signature.");
+        }
+        entry = NULL;
+    }
+
+    int value_index = -1;
+    if (entry && strcmp(name, "array_set") == 0) value_index = 2;
+    if (entry && strcmp(name, "array_push") == 0) value_index = 1;
+    Type element_type = TYPE_UNKNOWN;
+
+    /* List<int> / List<string> functions are not in the registry: they take
+     * (list), (list, index), (list, value) or (list, index, value) */
+    const char *list_op = NULL;
+    Type list_element = TYPE_UNKNOWN;
+    if (strncmp(name, "list_int_", 9) == 0) { list_op = name + 9; list_element = TYPE_INT; }
+    if (strncmp(name, "list_string_", 12) == 0) { list_op = name + 12; list_element = TYPE_STRING; }
+
+    for (int i = 0; i < argc; i++) {
+        ASTNode *arg = call->as.call.args[i];
+        Type got = check_expression(arg, env);
+        Type want = (entry && i < 4) ? entry->param_types[i] : TYPE_UNKNOWN;
+
+        if (list_op && strcmp(list_op, "with_capacity") == 0) {
+            want = TYPE_INT;
+        } else if (list_op && i == 0) {
+            /* a list is a handle: no string, float, bool or array can be one */
+            if (got == TYPE_STRING || got == TYPE_FLOAT || got == TYPE_BOOL || got == TYPE_ARRAY) {
+                snprintf(message, sizeof(message), "Argument 1 of `%s` expects a list, got %s.",
+                        name, type_to_string(got));
+                emit_context_error("TYPE MISMATCH", arg->line, arg->column, 1, message,
+                                   "Pass the list the function works on.");
+            }
+        } else if (list_op && i == 1) {
+            want = (strcmp(list_op, "push") == 0) ? list_element : TYPE_INT;
+        } else if (list_op && i == 2) {
+            want = list_element;
+        }
+
+        if (i == 0 && value_index > 0 && arg && arg->type == AST_IDENTIFIER) {
+            Symbol *sym = env_get_var_visible_at(env, arg->as.identifier, arg->line, arg->column);
+            if (sym && sym->type == TYPE_ARRAY &&
+                (sym->element_type == TYPE_INT || sym->element_type == TYPE_FLOAT ||
+                 sym->element_type == TYPE_STRING || sym->element_type == TYPE_BOOL)) {
+                element_type = sym->element_type;
+            }
+        }
+        if (i == value_index) want = element_type;
+
+        if (!builtin_arg_kind_ok(name, want, got)) {
+            snprintf(message, sizeof(message), "Argument %d of `%s` expects %s, got %s.",
+                    i + 1, name, type_to_string(want), type_to_string(got));
+            emit_context_error("TYPE MISMATCH", arg->line, arg->column, 1, message,
+                               "Convert the argument to the expected type.");
+        }
+    }
+}
+
 static Type check_expression_impl(ASTNode *expr, Environment *env);
 
 /* Check expression type (wrapper with recursion depth tracking) */
@@ -1183,9 +1280,43 @@ static Type check_expression_impl(ASTNode *expr, Environment *env) {
                     /* Mark the variable as used */
                     sym->is_used = true;
                     
-                    /* This is a call to a function parameter - check arguments */
+                    /* This is a call to a function parameter - check arguments against its signature
+                     * (a call without arguments may just be getting the function, see below) */
+                    FunctionSignature *sig = sym->type_info ? sym->type_info->fn_sig : NULL;
+                    if (sig && expr->as.call.arg_count > 0 && expr->as.call.arg_count != sig->param_count) {
+                        char message[256];
+                        snprintf(message, sizeof(message),
+                                "Function value `%s` expects %d argument(s), but got %d.",
+                                safe_format_string(expr->as.call.name), sig->param_count, expr->as.call.arg_count);
+                        emit_context_error(
+                            "ARITY MISMATCH",
+                            expr->line,
+                            expr->column,
+                            (int)safe_strlen(expr->as.call.name),
+                            message,
+                            "Add or remove arguments to match the function type."
+                        );
+                        return TYPE_UNKNOWN;
+                    }
                     for (int i = 0; i < expr->as.call.arg_count; i++) {
-                        check_expression(expr->as.call.args[i], env);
+                        Type arg_type = check_expression(expr->as.call.args[i], env);
+                        if (sig && sig->param_types && arg_type != TYPE_UNKNOWN &&
+                            !types_match(arg_type, sig->param_types[i])) {
+                            char message[256];
+                            snprintf(message, sizeof(message),
+                                    "Argument %d expects %s, got %s.",
+                                    i + 1,
+                                    type_to_string(sig->param_types[i]),
+                                    type_to_string(arg_type));
+                            emit_context_error(
+                                "TYPE MISMATCH",
+                                expr->line,
+                                expr->column,
+                                1,
+                                message,
+                                "Convert the argument to the expected type."
+                            );
+                        }
                     }
                     /* If this is a call with no arguments (just getting the function), return TYPE_FUNCTION */
                     if (expr->as.call.arg_count == 0) {
@@ -1203,20 +1334,15 @@ static Type check_expression_impl(ASTNode *expr, Environment *env) {
                 /* Special handling for dynamic array builtins */
                 if (strcmp(expr->as.call.name, "array_push") == 0) {
                     /* array_push(array, value) -> array */
-                    if (expr->as.call.arg_count >= 1) {
-                        check_expression(expr->as.call.args[0], env);
-                        if (expr->as.call.arg_count >= 2) {
-                            check_expression(expr->as.call.args[1], env);
-                        }
-                    }
+                    check_builtin_arguments(expr, env, true);
                     return TYPE_ARRAY;
                 }
                 
                 if (strcmp(expr->as.call.name, "array_pop") == 0) {
                     /* array_pop(array) -> element type (infer from array) */
+                    check_builtin_arguments(expr, env, true);
                     if (expr->as.call.arg_count >= 1) {
                         ASTNode *array_arg = expr->as.call.args[0];
-                        check_expression(array_arg, env);
                         
                         /* Try to infer element type from array */
                         if (array_arg->type == AST_IDENTIFIER) {
@@ -1247,12 +1373,7 @@ static Type check_expression_impl(ASTNode *expr, Environment *env) {
                 
                 if (strcmp(expr->as.call.name, "array_remove_at") == 0) {
                     /* array_remove_at(array, index) -> array */
-                    if (expr->as.call.arg_count >= 1) {
-                        check_expression(expr->as.call.args[0], env);
-                        if (expr->as.call.arg_count >= 2) {
-                            check_expression(expr->as.call.args[1], env);
-                        }
-                    }
+                    check_builtin_arguments(expr, env, true);
                     return TYPE_ARRAY;
                 }
                 
@@ -1282,15 +1403,7 @@ static Type check_expression_impl(ASTNode *expr, Environment *env) {
 
                 /* Special handling for array_slice */
                 if (strcmp(expr->as.call.name, "array_slice") == 0) {
-                    if (expr->as.call.arg_count >= 1) {
-                        check_expression(expr->as.call.args[0], env);
-                    }
-                    if (expr->as.call.arg_count >= 2) {
-                        check_expression(expr->as.call.args[1], env);
-                    }
-                    if (expr->as.call.arg_count >= 3) {
-                        check_expression(expr->as.call.args[2], env);
-                    }
+                    check_builtin_arguments(expr, env, true);
                     return TYPE_ARRAY;
                 }
                 
@@ -1837,10 +1950,8 @@ static Type check_expression_impl(ASTNode *expr, Environment *env) {
                     }
                 }
             } else {
-                /* For built-ins without param info, just check that arguments are valid expressions */
-                for (int i = 0; i < expr->as.call.arg_count; i++) {
-                    check_expression(expr->as.call.args[i], env);
-                }
+                /* Built-ins have no parameter list: the builtin registry knows what they take */
+                check_builtin_arguments(expr, env, false);
             }
 
             /* Special handling for array operations that need element type inference */
@@ -3125,7 +3236,19 @@ static Type check_statement_impl(TypeChecker *tc, ASTNode *stmt) {
             
             /* Special handling for function types - need to check signatures match */
             /* Also handle case where value_type is TYPE_INT (function-typed parameter placeholder) */
-            if (declared_type == TYPE_FUNCTION && (value_type == TYPE_FUNCTION || value_type == TYPE_INT)) {
+            if (declared_type == TYPE_FUNCTION && value_type == TYPE_INT &&
+                stmt->as.let.value->type != AST_CALL && stmt->as.let.value->type != AST_IDENTIFIER) {
+                /* an integer expression is no placeholder for a function */
+                emit_context_error(
+                    "TYPE MISMATCH",
+                    stmt->line,
+                    stmt->column,
+                    1,
+                    "Let binding expects function but got int.",
+                    "Ensure the assigned expression matches the declared type."
+                );
+                tc->has_error = true;
+            } else if (declared_type == TYPE_FUNCTION && (value_type == TYPE_FUNCTION || value_type == TYPE_INT)) {
                 /* Both are function types - check if signatures match */
                 FunctionSignature *declared_sig = stmt->as.let.fn_sig;
                 FunctionSignature *value_sig = NULL;
@@ -3168,9 +3291,9 @@ static Type check_statement_impl(TypeChecker *tc, ASTNode *stmt) {
                     } else {
                         /* Check if it's a function-typed variable */
                         Symbol *sym = env_get_var(tc->env, stmt->as.let.value->as.identifier);
-                        if (sym && sym->type == TYPE_FUNCTION) {
-                            /* TODO: Store function signature in Symbol for function-typed variables */
-                            /* For now, allow it - runtime will handle */
+                        if (sym && sym->type == TYPE_FUNCTION && sym->type_info) {
+                            /* The signature a parameter or let of function type was declared with */
+                            value_sig = sym->type_info->fn_sig;
                         }
                     }
                 } else if (stmt->as.let.value->type == AST_CALL && stmt->as.let.value->as.call.func_expr) {
@@ -3278,6 +3401,14 @@ static Type check_statement_impl(TypeChecker *tc, ASTNode *stmt) {
             /* Use declared_type which has been corrected for unions and enums */
             Type env_type = declared_type;
             Value val = create_void(); /* Placeholder */
+            if (!type_info && declared_type == TYPE_FUNCTION && stmt->as.let.fn_sig) {
+                /* calls through the variable are checked against its signature */
+                type_info = calloc(1, sizeof(TypeInfo));
+                if (type_info) {
+                    type_info->base_type = TYPE_FUNCTION;
+                    type_info->fn_sig = stmt->as.let.fn_sig;
+                }
+            }
             env_define_var_with_type_info(tc->env, stmt->as.let.name, env_type, element_type, type_info, stmt->as.let.is_mut, val);
             
             /* Store definition location and type metadata for unused variable warnings */
